@@ -19,6 +19,7 @@ func pathUniverse() []fieldpath.Path {
 		{a, a}, {a, a, a}, {k1}, {k1, a}, {v1}, {i0}, {b, v1, a}, {a, k2, v1}, {a, b, i0}, {b, b},
 		{a, k1, k1}, {b, i0, a}, {peField("c")}, {peField("c"), peField("d")}, {peField("c"), peField("d"), peField("e")},
 		{a, peValue(float64(1))}, {a, peValue(int64(1))}, {a, peKey("name", int64(1))}, {a, peKey("name", float64(1))},
+		{b, peValue(1.5)}, {b, peValue(0.5)}, {a, peKey("name", 1.5)},
 	}
 }
 
